@@ -178,6 +178,30 @@ def check_key_covers_executor_reads(ctx, rule: str, only: tuple[str, ...] | None
         )
 
 
+def check_disk_store_unconditional(ctx, rule: str) -> None:
+    """Once the value could be serialised, DiskCache.set writes the payload row and the signature row on every path: what
+    is already on disk (a surviving signature row says nothing about the payload row — eviction, a type-changed or
+    missing payload) never makes it skip the write, else the entry is never re-stored and the node runs again and again."""
+    db, rep = ctx.db, ctx.rep
+    dc = db.cls("cache.DiskCache")
+    st = dc.methods["set"]
+    cfg = ctx.cfg(st)
+    store_nodes = [n for n in cfg.nodes if any(isinstance(c.func, ast.Attribute) and c.func.attr in ("set", "add", "__setitem__") and src(c.func.value) == "self._cache" for c in cfg.calls_at(n))]
+    tr = next((t for t in walk_local(st.node) if isinstance(t, ast.Try) and any(isinstance(c, ast.Call) and (dotted(c.func) or "").endswith("dumps") for b in t.body for c in ast.walk(b))), None)
+    if tr is None or len(store_nodes) < 2:
+        raise AnalysisError("DiskCache.set: serialisation try / two store calls not found")
+    body = st.body
+    after = None
+    for i, b in enumerate(body):
+        if b is tr and i + 1 < len(body):
+            after = next((n for n in cfg.nodes if n.ast is body[i + 1] or (n.ast is not None and contains(body[i + 1], n.ast) and n.lineno == body[i + 1].lineno)), None)
+    if after is None:
+        raise AnalysisError("DiskCache.set: statement after the serialisation step not found")
+    okd = all(all_paths_pass(after, cfg.exit_return, [sn]) for sn in store_nodes)
+    reads = [n for n in cfg.nodes if any(isinstance(c.func, ast.Attribute) and c.func.attr in ("get", "__contains__", "__getitem__") and src(c.func.value) == "self._cache" for c in cfg.calls_at(n))] + [n for n in cfg.nodes if n.kind == "test" and n.ast is not None and "self._cache" in src(n.ast)]
+    rep.add(rule, f"{st.qname}:store-unconditional", okd and not reads, f"{st.module.rel}:{(reads[0] if reads else st.node).lineno}", "after serialisation both rows are written on every path; the write never depends on what the store already holds" if okd and not reads else f"the write depends on the current content of the store ('{src(reads[0].ast)[:70] if reads else 'a path skips a row'}'): after the payload row alone was lost (eviction, a missing or type-changed payload — each read as a miss) the matching signature row makes set() skip the re-store, so every later run misses again and re-invokes a function that already completed")
+
+
 def run(ctx) -> None:
     db, rep = ctx.db, ctx.rep
     rep.rule("C09.R1", "cache key covers every node attribute the executor consults", floor=4)
@@ -374,6 +398,11 @@ def run(ctx) -> None:
     tr = enclosing(lc, (ast.Try,))
     okt = tr is not None and any(gcfg.definitely_caught("Exception", gcfg._handler_names(h)) and any(isinstance(s, ast.Return) for s in h.body) for h in tr.handlers)
     rep.add("C09.R3", f"{get.qname}:loads-guarded", okt, f"{get.module.rel}:{ln.lineno}", "deserialisation failures are caught and returned as a miss" if okt else "a failing deserialisation (truncated / half-written payload that still verifies) propagates as an exception")
+    # rows are read through the third-party store, which decodes them (a text column that is no longer valid UTF-8 makes
+    # sqlite raise): every read of a row in get() is guarded, the failure counting as an altered row, i.e. a miss
+    row_reads = [c for c in walk_local(get.node) if isinstance(c, ast.Call) and isinstance(c.func, ast.Attribute) and c.func.attr in ("get", "__getitem__", "read") and src(c.func.value) == "self._cache"]
+    unguarded_reads = [c for c in row_reads if not any(isinstance(a, ast.Try) and any(contains(b_, c) for b_ in a.body) and any(h.type is None or "Exception" in src(h.type) for h in a.handlers) for a in ancestors(c))]
+    rep.add("C09.R3", f"{get.qname}:row-reads-guarded", bool(row_reads) and not unguarded_reads, f"{get.module.rel}:{(unguarded_reads[0] if unguarded_reads else get.node).lineno}", f"{len(row_reads)} read(s) of a stored row, each inside 'except Exception'" if row_reads and not unguarded_reads else f"'{src(unguarded_reads[0])[:60] if unguarded_reads else '?'}' reads a stored row outside any handler: a row the store cannot decode (a flipped byte that makes the signature text invalid UTF-8) raises sqlite3.OperationalError out of get() — an altered signature raises instead of behaving as a miss, and the run fails")
     # tainted consumers
     tainted = set()
     for n in gcfg.nodes:
@@ -469,6 +498,7 @@ def run(ctx) -> None:
     from .c14 import check_resume_bypasses_cache
 
     check_resume_bypasses_cache(ctx, "C09.R6")
+    check_disk_store_unconditional(ctx, "C09.R6")
     ccfg = ctx.cfg(cc)
     cdom = dominators(ccfg.entry)
 
@@ -632,6 +662,8 @@ CH = "src/hypergraph/cache.py"
 SS = "src/hypergraph/runners/sync/superstep.py"
 AS = "src/hypergraph/runners/async_/superstep.py"
 VARIANTS = [
+    Variant("disk-set-skips-when-signature-row-matches", CH, replace_once("        # Store raw bytes — diskcache keeps bytes in binary mode, no extra pickling\n", "        if self._cache.get(key + self._HMAC_SUFFIX, default=None) == value_hmac:\n            return\n        # Store raw bytes — diskcache keeps bytes in binary mode, no extra pickling\n"), {"C09.R6"}),
+    Variant("disk-get-signature-read-unguarded", CH, sub_once(r"        try:\n            stored_hmac = self\._cache\.get\(key \+ self\._HMAC_SUFFIX, default=None\)\n        except Exception:\n.*?            return False, None\n        if stored_hmac is None:", "        stored_hmac = self._cache.get(key + self._HMAC_SUFFIX, default=None)\n        if stored_hmac is None:"), {"C09.R3"}),
     Variant("hmac-over-payload-only", CH, replace_once("    msg = cache_key.encode() + raw_bytes\n", "    msg = raw_bytes\n"), {"C09.R2"}),
     Variant("cached-decision-frozen-to-tuple", CA, replace_once("            to_cache[_ROUTING_DECISION_KEY] = decision", "            to_cache[_ROUTING_DECISION_KEY] = tuple(decision) if isinstance(decision, list) else decision"), {"C09.R7"}),
     Variant("key-without-outputs", CA, replace_once("{node.data_outputs!r}:{node.outputs!r}:", ""), {"C09.R1"}),
